@@ -243,7 +243,7 @@ def run_probe_resilient(setup_lines, query_lines, exe="wbprobe", timeout=300, cw
     while start < len(query_lines):
         lines = setup_lines + query_lines[start:]
         try:
-            p = subprocess.run([probe], input="\n".join(lines) + "\n", capture_output=True, text=True, timeout=timeout, cwd=cwd, env=env)
+            p = subprocess.run([probe], input="\n".join(lines) + "\n", capture_output=True, text=True, errors="replace", timeout=timeout, cwd=cwd, env=env)
             ans = parse_answers(p.stdout)
             rc, err = p.returncode, p.stderr
             hung = False
@@ -284,7 +284,7 @@ def parse_answers(text):
 def run_probe(lines, timeout=3600, cwd=None, exe="wbprobe"):
     """feed command lines to wbprobe; returns one answer per command (crash -> 'crash')."""
     probe = os.path.join(WORK, exe)
-    p = subprocess.run([probe], input="\n".join(lines) + "\n", capture_output=True, text=True, timeout=timeout, cwd=cwd)
+    p = subprocess.run([probe], input="\n".join(lines) + "\n", capture_output=True, text=True, errors="replace", timeout=timeout, cwd=cwd)
     ans = parse_answers(p.stdout)
     if p.returncode != 0 or len(ans) != len(lines):
         # the harness died: everything from the first unanswered command on is a crash
